@@ -68,5 +68,8 @@ inline std::string pattern(uint64_t n, uint64_t k) {
 // layer entry points: each reads request lines from stdin and prints result lines
 int run_enc(int argc, char** argv);
 int run_ts(int argc, char** argv);
+int run_dec(int argc, char** argv);
+int run_exp(int argc, char** argv);
+int run_rd(int argc, char** argv);
 
 }  // namespace vh
